@@ -195,12 +195,12 @@ def job_read(res, n, kind, cplx):
             confirm(res, PID, HARNESS, fn, mk(model_dict(sol)), 'i32', 'read', ORACLES, f'read:kind{kind}:{p.out}', f'reading slice (kind {kind}) differs from python semantics', extra=ex)
         else: res.inc(f'read n={n} kind={kind} query unknown')
 
-def job_read_end(res, n):
+def job_read_end(res, n, cst=0):
     mod, so = load(HARNESS)
     def setup(m):
         i1 = bvsym('i1', 32); st = bvsym('m', 32); xs = xsyms(n)
-        x = m.alloc_doubles(xs, 'x'); y = m.alloc_doubles([0.0] * max(n, 1), 'y'); return [x, n, i1, st, y], (i1, st, xs, y)
-    mk = lambda mdl: [('pf64', distinctify(xvals(mdl, n))), ('i32', n), ('i32', model_int(mdl, 'i1')), ('i32', model_int(mdl, 'm')), ('pf64', [0.0] * max(n, 1))]
+        x = m.alloc_doubles(xs, 'x'); y = m.alloc_doubles([0.0] * max(n, 1), 'y'); return [x, n, i1, st, y, cst], (i1, st, xs, y)
+    mk = lambda mdl: [('pf64', distinctify(xvals(mdl, n))), ('i32', n), ('i32', model_int(mdl, 'i1')), ('i32', model_int(mdl, 'm')), ('pf64', [0.0] * max(n, 1)), ('i32', cst)]
     for p in explore(mod, '@h_slice_read_end', setup, max_paths=300):
         if p.out not in ('ret', 'throw'): res.inc(f'read_end n={n} path {p.out}: {p.err}'); continue
         res.absorb(p.m); i1, st, xs, y = p.ctx; sp = Spec(n, i1.e, z3.BitVecVal(n, 32), st.e)
@@ -213,8 +213,8 @@ def job_read_end(res, n):
                 for i in range(n): bad.append(z3.And(z3.ULT(z3.BitVecVal(j, 64), sp.cnt), sp.is_pos(i, j), z3.Not(_eq_real(p.m, ys[j], xs[i]))))
             sol.add(*p.m.pc[len(sol.assertions()):]); sol.add(z3.Or(bad))
         r = timed_check(sol, res)
-        if r == z3.unsat: res.ob(True, 'BV+REAL', f'slice(i1,end,m) n={n} path {p.out}')
-        elif r == z3.sat: confirm(res, PID, HARNESS, 'h_slice_read_end', mk(model_dict(sol)), 'i32', 'read_end', ORACLES, f'read_end:{p.out}', 'slice(i1,end,m) differs from python')
+        if r == z3.unsat: res.ob(True, 'BV+REAL', f'{"const " if cst else ""}slice(i1,end,m) n={n} path {p.out}')
+        elif r == z3.sat: confirm(res, PID, HARNESS, 'h_slice_read_end', mk(model_dict(sol)), 'i32', 'read_end', ORACLES, f'read_end:{"const:" if cst else ""}{p.out}', ('const ' if cst else '') + 'x.slice(i1,end,m) differs from python')
         else: res.inc('read_end query unknown')
 
 def job_assign(res, kind, n, cplx=False, nv=None, n2=None, constsrc=0, signs=None):
@@ -326,7 +326,7 @@ def main(tier, seed):
             jobs.append((f'read real n={n} kind={kind}', 'read', dict(n=n, kind=kind, cplx=False), 1500))
         for kind in (0, 1, 5):
             if n <= (2 if q else 4): jobs.append((f'read cmplx n={n} kind={kind}', 'read', dict(n=n, kind=kind, cplx=True), 1500))
-        jobs.append((f'read_end n={n}', 'read_end', dict(n=n), 900))
+        jobs.append((f'read_end n={n}', 'read_end', dict(n=n), 900)); jobs.append((f'read_end const n={n}', 'read_end', dict(n=n, cst=1), 900))
         jobs.append((f'fill n={n}', 'assign', dict(kind='fill', n=n), 1500))
         if n <= (2 if q else 4): jobs.append((f'fill cmplx n={n}', 'assign', dict(kind='fill', n=n, cplx=True), 1500))
         for nv in range(0, min(n + 1, 4) + 1):
